@@ -4,6 +4,7 @@ import (
 	"bytes"
 	"errors"
 	"fmt"
+	"io"
 	"strconv"
 	"strings"
 	"time"
@@ -597,13 +598,17 @@ func init() {
 
 // ---------------------------------------------------------------- concurrent part of C06 (SCHED)
 
-func c06concurrent(sizes [][]int, reader bool, bound int) *explore.Scenario {
+func c06concurrent(sizes [][]int, reader bool, bound int, yieldOnRelease ...bool) *explore.Scenario {
 	name := fmt.Sprintf("buffer writers=%v", sizes)
 	if reader {
 		name += " +reader"
 	}
 	sc := &explore.Scenario{Name: name, Bound: bound}
 	sc.Cfg.Horizon = time.Second
+	if len(yieldOnRelease) > 0 && yieldOnRelease[0] {
+		sc.Name += ", yield after unlock"
+		sc.Cfg.YieldOnRelease = true
+	}
 	total := 0
 	for _, w := range sizes {
 		total += len(w)
@@ -794,8 +799,12 @@ func c06fullRing(limit int, prefill, wr []int, bound int) *explore.Scenario {
 
 // c06readers: several readers take packets from one buffer at the same time (one writer after a prefill):
 // every packet is returned to exactly one reader, intact; each reader sees increasing packet numbers.
-func c06readers(readers, perReader int, prefill, wr []int, bound int) *explore.Scenario {
+func c06readers(readers, perReader int, prefill, wr []int, bound int, closer ...bool) *explore.Scenario {
 	name := fmt.Sprintf("buffer prefilled %v, %d readers x %d reads vs writer %v", prefill, readers, perReader, wr)
+	withClose := len(closer) > 0 && closer[0]
+	if withClose {
+		name += ", closed by a third thread"
+	}
 	sc := &explore.Scenario{Name: name, Bound: bound}
 	sc.Cfg.Horizon = time.Second
 	sc.Cfg.YieldOnRelease = true
@@ -810,6 +819,7 @@ func c06readers(readers, perReader int, prefill, wr []int, bound int) *explore.S
 	}
 	sc.Make = func() (func(), func(*zzvsched.Exec) (string, *explore.Violation)) {
 		got := make([][][]byte, readers+1) // per reader; last = drained by main at the end
+		refused := map[int]bool{}          // writes refused because the buffer had been closed
 		var errs []string
 		body := func() {
 			b := packetio.NewBuffer()
@@ -819,10 +829,18 @@ func c06readers(readers, perReader int, prefill, wr []int, bound int) *explore.S
 			zzvsched.GoNamed("writer", func() {
 				for i, n := range wr {
 					if _, err := b.Write(mk(len(prefill)+i, n)); err != nil {
+						if withClose && errors.Is(err, io.ErrClosedPipe) {
+							refused[len(prefill)+i] = true
+							continue
+						}
 						errs = append(errs, err.Error())
 					}
 				}
 			})
+			if withClose {
+				// Close at any point: what was written before stays readable, nothing is handed out twice
+				zzvsched.GoNamed("closer", func() { _ = b.Close() })
+			}
 			for r := 0; r < readers; r++ {
 				r := r
 				zzvsched.GoNamed(fmt.Sprintf("reader%d", r), func() {
@@ -830,6 +848,9 @@ func c06readers(readers, perReader int, prefill, wr []int, bound int) *explore.S
 						buf := make([]byte, 4096)
 						n, err := b.Read(buf)
 						if err != nil {
+							if withClose && errors.Is(err, io.EOF) {
+								return
+							}
 							errs = append(errs, "read: "+err.Error())
 							return
 						}
@@ -893,7 +914,12 @@ func c06readers(readers, perReader int, prefill, wr []int, bound int) *explore.S
 				}
 			}
 			// readers still waiting are fine only if they were outnumbered; every written packet must have been returned
-			if len(seen) != len(all) {
+			for k := range refused {
+				if seen[k] > 0 {
+					return out, &explore.Violation{Sig: "C06 concurrent-corrupt", Msg: fmt.Sprintf("%s: packet %d was refused (closed) and yet returned by a read", name, k)}
+				}
+			}
+			if len(seen)+len(refused) != len(all) {
 				return out, &explore.Violation{Sig: "C06 concurrent-lost", Msg: fmt.Sprintf("%s: %d packets written, %d returned (%s); parked: %v", name, len(all), len(seen), out, ex.Parked)}
 			}
 			return out, nil
@@ -914,13 +940,16 @@ func init() {
 			c06concurrent([][]int{{1500, 900}, {1200, 700}}, true, b),
 			c06concurrent([][]int{{1500, 900}, {1200, 700}}, false, b),
 			c06concurrent([][]int{{2, 3000}, {2040, 5}}, true, b),
+			// a large backlog: the ring grows past 128 KiB while a reader is active
+			c06concurrent([][]int{{60000, 60000, 60000, 9}}, true, b, true),
 			c06fullRing(40, []int{16, 16}, []int{16, 10}, b),
 			c06fullRing(40, []int{10, 10, 10}, []int{20, 3}, b),
 			c06readers(2, 1, []int{9}, nil, b),
 			c06readers(2, 1, []int{9}, []int{7}, b),
 			c06readers(3, 1, []int{9, 5}, []int{7}, b),
 			c06readers(2, 2, []int{9}, []int{7, 1500, 3}, b),
+			c06readers(2, 2, []int{9, 5}, []int{7}, b, true),
 		}
 	}
-	c.Rule += "; concurrently: 2 writers x 2 packets whose sizes force the ring to grow, with and without a concurrent reader, every interleaving within the preemption bound: the read sequence must be a merge of the writers' sequences, byte-identical; a full size-limited ring (41 bytes) with a reader and a writer whose packets re-use the bytes just released, with a scheduling point after every unlock; 2-3 concurrent readers on a buffer holding fewer packets than there are readers (each packet to exactly one reader)"
+	c.Rule += "; concurrently: 2 writers x 2 packets whose sizes force the ring to grow, with and without a concurrent reader, every interleaving within the preemption bound: the read sequence must be a merge of the writers' sequences, byte-identical; a full size-limited ring (41 bytes) with a reader and a writer whose packets re-use the bytes just released, with a scheduling point after every unlock; a 180 KB backlog growing the ring past 128 KiB beside a reader; 2-3 concurrent readers on a buffer holding fewer packets than there are readers (each packet to exactly one reader)"
 }
